@@ -375,6 +375,9 @@ func (r *FnRun) unknownCall(st *State, site ssa.Instruction, what string, resT t
 }
 
 func (r *FnRun) invoke(st *State, site ssa.Instruction, call *ssa.CallCommon, recv Val, args []Val, resT types.Type) Val {
+	// a method call through a nil interface or a typed-nil receiver is a nil
+	// dereference, which is outside the model (listed as an assumption)
+	st.assume(sAnd(sNot(sEq(recv.Tag, "0")), sNot(sEq(recv.Pay, "null"))))
 	// dynamic type statically known?
 	if n, ok := isIntLit(recv.Tag); ok && n.Sign() > 0 {
 		if t := r.W.tagTypes()[int(n.Int64())]; t != nil {
@@ -398,7 +401,15 @@ func (r *FnRun) invoke(st *State, site ssa.Instruction, call *ssa.CallCommon, re
 		}
 	}
 	key := call.Method.FullName()
-	c := r.W.IfaceSpec[key]
+	// a spec for the static interface type takes precedence, e.g.
+	// (hash.Hash).Write over (io.Writer).Write
+	skey := "(" + types.TypeString(call.Value.Type(), nil) + ")." + call.Method.Name()
+	c := r.W.IfaceSpec[skey]
+	if c != nil {
+		key = skey
+	} else {
+		c = r.W.IfaceSpec[key]
+	}
 	if c == nil {
 		return r.unknownCall(st, site, "interface method "+key, resT)
 	}
@@ -669,7 +680,22 @@ func (r *FnRun) applyContract(st *State, site ssa.Instruction, c *Contract, name
 			r.errorf("%s:%d: %v", pi.File, pi.Line, env.err)
 			return r.freshVal(st, resT, "res")
 		}
-		r.check(st, "pre", short+".nopanic", site, sNot(g.S), name+" panics if "+pi.Src)
+		goal := sNot(g.S)
+		if r.C != nil && len(r.C.PanicsIf) > 0 && st.inl == nil {
+			// a callee panic is specified behaviour when the caller declares it
+			oe := &Env{r: r, st: st, old: r.entry, vars: map[string]Val{}, fn: r.Fn, pkg: r.entryEnv.pkg}
+			for k, v := range r.entryEnv.vars {
+				oe.vars[k] = v
+			}
+			for _, own := range r.C.PanicsIf {
+				ov := oe.eval(&ast.CallExpr{Fun: ast.NewIdent("old"), Args: []ast.Expr{own.Expr}})
+				if oe.err == nil {
+					goal = sOr(goal, ov.S)
+				}
+			}
+		}
+		r.oblig(st, "pre", short+".nopanic", site, goal, name+" panics if "+pi.Src, r.C.Serves)
+		st.assume(sNot(g.S))
 	}
 	// snapshot
 	old := st.clone()
@@ -1009,6 +1035,7 @@ func (r *FnRun) recordRecv(st *State, ch string, v Val) {
 
 func (r *FnRun) execRecv(st *State, x *ssa.UnOp, ch Val) {
 	r.incBlocked(st)
+	st.assume(sNot(sEq(ch.S, "null"))) // receive from a nil channel never completes
 	et := x.X.Type().Underlying().(*types.Chan).Elem()
 	v := r.freshVal(st, et, "recv")
 	r.recordRecv(st, ch.S, v)
@@ -1024,6 +1051,7 @@ func (r *FnRun) execSend(st *State, x *ssa.Send) {
 	ch := r.val(st, x.Chan)
 	r.val(st, x.X)
 	r.incBlocked(st)
+	st.assume(sNot(sEq(ch.S, "null"))) // send on a nil channel never completes
 	cnt := sx("fld", ch.S, "903")
 	r.setHeap(st, "I", sx("store", st.heap["I"], cnt, sAdd(sx("select", st.heap["I"], cnt), "1")))
 }
@@ -1044,6 +1072,8 @@ func (r *FnRun) execSelect(st *State, x *ssa.Select) {
 	ri := 2
 	for i, s := range x.States {
 		ch := r.val(st, s.Chan)
+		// a case on a nil channel is never ready
+		st.assume(sImp(sEq(idx, fmt.Sprint(i)), sNot(sEq(ch.S, "null"))))
 		if s.Dir == types.RecvOnly {
 			v := r.freshVal(st, tu.At(ri).Type(), fmt.Sprintf("sel.r%d", i))
 			fs = append(fs, v)
@@ -1223,7 +1253,10 @@ func (r *FnRun) loopWrites(li *loopInfo) map[string]bool {
 				}
 				var c *Contract
 				if cc.IsInvoke() {
-					c = r.W.IfaceSpec[cc.Method.FullName()]
+					c = r.W.IfaceSpec["("+types.TypeString(cc.Value.Type(), nil)+")."+cc.Method.Name()]
+					if c == nil {
+						c = r.W.IfaceSpec[cc.Method.FullName()]
+					}
 				} else if f := cc.StaticCallee(); f != nil {
 					c = r.W.ContractOf[f]
 				}
